@@ -14,8 +14,6 @@ T_DEFAULTED = {
     "topology_abi": "constant of this build", "nb_levels_allocated": "allocation bookkeeping of the fresh levels array",
     "userdata": "topology userdata belongs to the application and is not duplicated", "adopted_shmem_addr": "a copy is never an adopted mapping",
     "adopted_shmem_length": "a copy is never an adopted mapping", "tma": "set from the dup's own allocator argument",
-    "grouping": "discovery-time configuration, re-read from the environment", "grouping_verbose": "discovery-time configuration",
-    "grouping_nbaccuracies": "discovery-time configuration", "grouping_accuracies": "discovery-time configuration", "grouping_next_subkind": "discovery-time counter",
     "backend_phases": "a copy has no backends", "backend_excluded_phases": "a copy has no backends", "machine_memory": "discovery-time scratch",
     "pci_has_forced_locality": "discovery-time PCI configuration", "pci_forced_locality_nr": "discovery-time PCI configuration",
     "pci_forced_locality": "discovery-time PCI configuration", "pci_locality_quirks": "discovery-time PCI configuration",
@@ -38,7 +36,22 @@ def run(chk, tier):
     E = effects.Effects(P)
     chk.units |= {"hwloc/topology.c", "hwloc/distances.c", "hwloc/memattrs.c", "hwloc/cpukinds.c", "hwloc/bitmap.c"}
     chk.rule("R-DUPFIELD", "every field of the duplicated records (from the RecordDecls) is given a value on the copy by dup or by the initialisers it calls")
-    n = dup.dupfield(chk, P, "hwloc_topology", OWN_T, defaulted=T_DEFAULTED, nprimary=NPRIM_T, exceptions=T_EXC)
+    # the initialisers listed after the primary duplication functions count only if hwloc__topology_dup really reaches them
+    # (call graph): an initialiser that only hwloc_topology_load() runs gives the copy nothing
+    reach, work = set(), [OWN_T[0][0]]
+    while work:
+        fn0 = work.pop()
+        if fn0 in reach:
+            continue
+        reach.add(fn0)
+        f0 = P.func(fn0)
+        if f0 is not None and f0.entry is not None:
+            work += [c0["fn"] for c0 in f0.calls() if c0.get("fn") and P.func(c0["fn"]) is not None]
+    own_t = [o for i, o in enumerate(OWN_T) if i < NPRIM_T or o[0] in reach]
+    dropped = [o[0] for o in OWN_T if o not in own_t]
+    if dropped:
+        chk.notes.append("R-DUPFIELD: listed initialisers not reached from hwloc__topology_dup and therefore not counted: %s" % ", ".join(dropped))
+    n = dup.dupfield(chk, P, "hwloc_topology", own_t, defaulted=T_DEFAULTED, nprimary=NPRIM_T, exceptions=T_EXC)
     n += dup.dupfield(chk, P, "hwloc_obj", OWN_O, defaulted=O_DEFAULTED, nprimary=NPRIM_O)
     n += dup.dupfield(chk, P, "hwloc_internal_distances_s", [("hwloc_internal_distances_dup_one", ["newdist"])])
     n += dup.dupfield(chk, P, "hwloc_internal_memattr_s", [("hwloc_internal_memattrs_dup", ["imattrs"])])
